@@ -8,5 +8,5 @@ MaxLabels = 2
 PoolMax = 16384
 INIT Init
 NEXT Next
-INVARIANTS RoundTrip OffsetsIncrease LabelTable JumpTables LinesOK EmitRow
+INVARIANTS TheoremAndRow
 CHECK_DEADLOCK FALSE
